@@ -29,6 +29,10 @@ Two parts:
   object/module.go as it is (`Module.Override` writes the module's table only, no back-pointer);
   `adopt = true` is the contrast in which Override re-aims the replacement's `Builtin.module`.
 
+* `XOpt`, `XCfg`, `applyXOpts`, `core`, `initFromX` — option sequences that mix the global-related
+  options with options writing other Config fields (WithConcurrency, WithFilename, WithOS);
+  `initFromXRestoring` is the contrast in which init re-installs missing defaults under a flag.
+
 Object identities are natural numbers; `root = 0` stands for the script's global scope.
 Core Lean only.
 -/
@@ -682,5 +686,58 @@ def runBuildsO (adoptOv : Bool) : World → List Build → World × List (Built 
     module heap and the back-pointers as they are THEN — after any number of later builds) -/
 def accessIn (w : World) (g : Table) (imp : Bool) (first : Name) (attrs : List Name) : Option Id :=
   access ⟨g, w.mods, w.back⟩ imp first attrs
+
+/-! ## Options that do not speak about globals (WithConcurrency, WithFilename, WithOS, …)
+
+A host combines the options of section "Option sequences" with options that configure something
+else.  They write a Config field of their own; `Config.init` as it is reads none of these
+fields when it computes the globals (tie `Ties.initReads_tie`). -/
+
+/-- an option sequence as the host writes it: the global-related options plus `flag k` — an
+    option that writes only the Config field number `k` (0 `withConcurrency`, 1 `filename`,
+    2 `os`, 3 `localImportPath`…; the number only tells the fields apart) -/
+inductive XOpt where
+  | opt (o : Opt)
+  | flag (k : Nat)
+deriving DecidableEq, Repr
+
+/-- the Config fields: those of `Cfg` and the set of other fields that were written -/
+structure XCfg where
+  c : Cfg
+  flags : List Nat
+deriving Repr, DecidableEq
+
+def applyXOpt (s : XCfg) : XOpt → XCfg
+  | .opt o => { s with c := applyOpt s.c o }
+  | .flag k => { s with flags := if s.flags.contains k then s.flags else s.flags ++ [k] }
+
+/-- `NewConfig(opts...)` before `init`, all options -/
+def applyXOpts (xs : List XOpt) : XCfg := xs.foldl applyXOpt ⟨Cfg.empty, []⟩
+
+/-- the global-related options of a sequence, in order -/
+def core : List XOpt → List Opt
+  | [] => []
+  | .opt o :: r => o :: core r
+  | .flag _ :: r => core r
+
+/-- `Config.init` as it is on all the fields: the three steps of `initFrom`; the other fields
+    are not consulted -/
+def initFromX (x : XCfg) (dflt : Table) (mods : List (Id × Table)) (back : List (Id × Id))
+    (ds : List Name) (os : Table) : St :=
+  initFrom x.c dflt mods back ds os
+
+/-- CONTRAST (not the code): a last step of `init` that, when field `k` was written, makes sure
+    the names `names` are bound by installing the default object of each one that is missing
+    from the globals — "so that the feature the flag enables is usable without the defaults".
+    A name can be missing because the host removed it (`Props.restoring_flag_defeats_denial`). -/
+def initFromXRestoring (k : Nat) (names : List Name) (x : XCfg) (dflt : Table)
+    (mods : List (Id × Table)) (back : List (Id × Id)) (ds : List Name) (os : Table) : St :=
+  let st := initFrom x.c dflt mods back ds os
+  if x.flags.contains k then
+    { st with globals := names.foldl (fun g n =>
+        match tget g n, tget dflt n with
+        | none, some v => tput g n v
+        | _, _ => g) st.globals }
+  else st
 
 end Risor.C11
